@@ -793,3 +793,43 @@ def flag_pair_rule(ctx, rid, scope, min_instances=1):
                 r.ok(f"{f.cls.name}.{f.name}: self.{attr} = {v0} ... = {not v0} on every path")
             else:
                 r.fail(f.qualname, f"flag-not-lowered:{attr.lstrip('_')}", f.file, body[i0].lineno, f"{f.cls.name}.{f.name}", f"`self.{attr} = {v0}` is set for the duration of the call but a path returns before `self.{attr} = {not v0}`: the object stays in the temporary mode, every later use (and every copy) behaves as if the call were still running")
+
+
+def commit_idempotent_rule(ctx, rid, min_instances=2):
+    """Save_Iter commits trial state into history state (`self.__old = self.__new`).  Saving twice without a solve in
+    between (a checkpoint) must leave the history where the first save put it: a commit statement never overwrites an
+    attribute that another commit of the same override reads (no swap / rotation of buffers)."""
+    repo = ctx.repo
+    r = ctx.rule(rid, "Save_Iter overrides are idempotent commits: no attribute written by the commit is also read by it (no buffer swap): a second save without a solve changes nothing", min_instances=min_instances)
+    simu = repo.cls("EasyFEA.Simulations._simu._Simu")
+    for ci in repo.subclasses(simu):
+        f = ci.methods.get("Save_Iter")
+        if f is None or f.cls is not ci:
+            continue
+        written, read = {}, {}
+        for n in ast.walk(f.node):
+            if isinstance(n, (ast.Assign, ast.AugAssign)):
+                targets = n.targets if isinstance(n, ast.Assign) else [n.target]
+                flat = []
+                for t in targets:
+                    flat += list(t.elts) if isinstance(t, (ast.Tuple, ast.List)) else [t]
+                ws = [t.attr for t in flat if isinstance(t, ast.Attribute) and isinstance(t.value, ast.Name) and t.value.id == "self"]
+                if not ws:
+                    continue
+                for w in ws:
+                    written[w] = n
+                for x in ast.walk(n.value):
+                    if isinstance(x, ast.Attribute) and isinstance(x.value, ast.Name) and x.value.id == "self" and isinstance(x.ctx, ast.Load):
+                        read.setdefault(x.attr, n)
+                if isinstance(n, ast.AugAssign):
+                    for w in ws:
+                        read.setdefault(w, n)
+        if not written:
+            continue
+        r.instance(fn=f.qualname)
+        both = sorted(set(written) & set(read))
+        if both:
+            a = both[0]
+            r.fail(f.qualname, f"non-idempotent-commit:{a.lstrip('_')}", f.file, written[a].lineno, f"{ci.name}.Save_Iter", f"`self.{a}` is both written and read by the commit (`{norm_text(written[a])[:80]}`): a second Save_Iter without a solve in between does not leave the history unchanged (buffers are swapped back: the committed history returns to the previous step's)")
+        else:
+            r.ok(f"{ci.name}.Save_Iter commits {sorted(written)} from {sorted(read)}")
